@@ -113,10 +113,12 @@ Definition new_unprotected_slots (accs : list caccess) (ex : list (string * stri
    directly (e_label = "") or as field e_label of the returned struct.
    cmutate: function m_fn applies the in-place mutation m_op (slices.Sort* / Reverse, sort.*, index assignment,
    append whose result is not stored back) to m_expr, whose root variable came from a call of m_origin
-   ("fresh": built in m_fn; "param" / "other" otherwise); m_path = first selector below that variable. *)
+   ("fresh": built in m_fn; "param" / "other" otherwise); m_path = first selector below that variable;
+   m_taint = field-sensitive taint of the mutated expression: "shared" = reachable from the receiver or a
+   parameter without a copy, "fresh" = built in the function, "unknown" otherwise. *)
 Record cescape := mkesc { e_fn : string; e_label : string; e_via : string; e_file : string; e_line : nat }.
 Record cmutate := mkmut { m_fn : string; m_op : string; m_expr : string; m_origin : string; m_path : string;
-                          m_file : string; m_line : nat }.
+                          m_taint : string; m_file : string; m_line : nat }.
 
 (* a value obtained from an escaping function, mutated in place by its caller: the caller writes into memory
    that the callee still holds (and hands to every other caller) *)
@@ -125,3 +127,7 @@ Definition mutates_cached (escs : list cescape) (m : cmutate) : bool :=
 
 Definition cached_mutations (escs : list cescape) (muts : list cmutate) : list cmutate :=
   filter (mutates_cached escs) muts.
+
+(* in-place mutations of memory that the caller (and every other holder of the receiver / argument) still sees *)
+Definition shared_mutations (muts : list cmutate) : list cmutate :=
+  filter (fun m => String.eqb (m_taint m) "shared") muts.
